@@ -11,6 +11,7 @@ import (
 
 	"github.com/ozontech/seq-db/frac"
 	"github.com/ozontech/seq-db/frac/processor"
+	"github.com/ozontech/seq-db/parser"
 	"github.com/ozontech/seq-db/seq"
 	rt "github.com/ozontech/seq-db/verifrt"
 )
@@ -135,6 +136,7 @@ func (f *vAFrac) DataProvider(context.Context) (frac.DataProvider, func()) {
 func (f *vAFrac) Suicide()                         {}
 func (f *vAFrac) Fetch([]seq.ID) ([][]byte, error) { panic("unused") }
 func (f *vAFrac) Search(p processor.SearchParams) (*seq.QPR, error) {
+	vASTs = append(vASTs, p.AST.String())
 	q := &seq.QPR{}
 	if p.HistInterval > 0 {
 		q.Histogram = map[seq.MID]uint64{}
@@ -164,7 +166,14 @@ func (f *vAFrac) Search(p processor.SearchParams) (*seq.QPR, error) {
 
 type vAMapping struct{}
 
-func (vAMapping) GetMapping() seq.Mapping { return nil }
+// the mapping matters for parsing: on a text field several words are a conjunction
+func (vAMapping) GetMapping() seq.Mapping {
+	return seq.Mapping{"message": seq.NewSingleType(seq.TokenizerTypeText, "", 0)}
+}
+
+const vQuery = `message:"a b"`
+
+var vASTs []string // the parsed query each fraction was searched with
 
 var vWorkerCrashed bool
 
@@ -220,7 +229,7 @@ func vRunCrash(op func()) (crashed bool) {
 func VerifAsync() {
 	n, nf := rt.Param("DOCS"), rt.Param("FRACS")
 	vFS = &vAFS{files: map[string][]byte{}}
-	vQPRs, vInfos, vWorkerCrashed = nil, nil, false
+	vQPRs, vInfos, vWorkerCrashed, vASTs = nil, nil, false, nil
 	docs := make([]seq.ID, n)
 	for i := range docs {
 		docs[i] = seq.ID{MID: seq.MID(rt.NondetU64()), RID: seq.RID(rt.NondetU64())}
@@ -257,7 +266,7 @@ func VerifAsync() {
 		requests: map[string]asyncSearchInfo{}, rateLimit: make(chan struct{}, 1), createDirOnce: &sync.Once{}}
 	vFS.crashAt = rt.NondetInt() // crash point of the run that starts the search
 	rt.Assume(rt.And(1 <= vFS.crashAt, vFS.crashAt <= rt.Param("MAXOPS")))
-	req := AsyncSearchRequest{ID: "req1", Params: params, Query: "message:x"}
+	req := AsyncSearchRequest{ID: "req1", Params: params, Query: vQuery}
 	started := false
 	crashed := vRunCrash(func() {
 		err := as.StartSearch(req) // spawns processRequest; it runs when this thread waits below
@@ -297,6 +306,14 @@ func VerifAsync() {
 	for name := range vFS.files {
 		rt.Assert(!strings.HasSuffix(name, ".tmp") || crashed, "no temporary file is left by a clean run")
 	}
+
+	// every fraction - before and after the restart - was searched with the query as the mapping reads it
+	ref, perr := parser.ParseSeqQL(vQuery, vAMapping{}.GetMapping())
+	rt.Assert(perr == nil, "the query parses")
+	for _, a := range vASTs {
+		rt.Assert(a == ref.Root.String(), "each fraction is searched with the query parsed under the store's mapping")
+	}
+	params.AST = ref.Root
 
 	// synchronous reference over the same fractions
 	s := NewSearcher(2, SearcherCfg{})
